@@ -217,6 +217,14 @@ def verus_lane(pid, tier, cov, ledger, findings, assumptions):
     new_fns = sorted(set(f.name for f in fns if f.mode == 'exec' and f.has_body and not f.external and f.id not in ledger_fns
                          and not (f.trait_impl and f.trait_impl.startswith('decl:'))))
     wlines = w.text.split('\n')
+    for fnname in getattr(w, 'dropped_extra_fns', []):
+        # a lemma / client function that no longer compiles against the changed crate: its obligations are undecided
+        tags = []
+        for (oid, props_) in ledger_tags(ledger, fnname):
+            if pid in props_:
+                tags.append(oid)
+        if tags:
+            out['undecided'].append('%s: does not compile against the current crate (removed from this run): undecided' % tags[0])
     subst_mods = set(r[:-3].replace('/', '::') for r in getattr(w, 'substituted', []))
     if subst_mods:
         cov['modules_replaced_by_baseline_text'] = sorted(subst_mods)
@@ -307,6 +315,19 @@ def verus_lane(pid, tier, cov, ledger, findings, assumptions):
     assumptions.append('trusted base (axioms / external_body / assume_specification) as listed in coverage.trusted_base; user price getters are pure (T6)')
     assumptions.append('Verus, its Z3 and rustc are trusted; obligations = contract clauses, hints and one built-in-safety obligation per exec function, counted from the woven text')
     return out
+
+
+def ledger_tags(ledger, fnname):
+    """ledger obligations of a lemma/client function, with the property ids named in their kind"""
+    res = []
+    for o in ledger:
+        fid, _, kind = o.partition('#')
+        if fid.split('::')[-1] == fnname and not fid.startswith('kani::'):
+            props_ = []
+            for k in kind.split(','):
+                props_ += PM.props_for('::'.join(fid.split('::')[:-1]), k, None)
+            res.append((o, [x for x in props_ if x != '*']))
+    return res
 
 
 def replay(path):
